@@ -16,6 +16,8 @@ shapes the analyser uses are rewritten by RULE (no per-site text), on the extrac
                                                                         None => { break; } } }
                                           oq3_vK }
     RECV.filter_map(|P| B).collect() -> same, with `match B { Some(oq3_eK) => { oq3_vK.push(oq3_eK); } None => {} }`
+    RECV.map(|P| B).for_each(drop)   ->  { let mut oq3_itK = RECV; loop { match oq3_itK.next() { Some(P) => { B; } None => { break; } } } }
+                                         (the adapter is driven to the end and every result is dropped)
 
 These are the definitions of Option::map / and_then / map_or_else and of Iterator::map / filter_map
 followed by Vec's FromIterator (elements pushed in iteration order); evaluation order of RECV, P and
@@ -30,6 +32,7 @@ from .rustsrc import RustFile
 METHODS = ('map', 'and_then', 'filter_map', 'filter', 'map_or_else', 'map_or', 'is_some_and', 'unwrap_or_else')
 _CALL = re.compile(r'\.\s*(map_or_else|map_or|map|and_then|filter_map|filter|is_some_and|unwrap_or_else)\s*\(\s*(?:\||[^()|]*,\s*\|)')
 _MAP_PATH = re.compile(r'\.\s*map\s*\(\s*([A-Z][A-Za-z0-9_]*(?:::[A-Za-z_][A-Za-z0-9_]*)+)\s*\)')
+_FOR_EACH_DROP = re.compile(r'\s*\.\s*for_each\s*\(\s*drop\s*\)')
 _COLLECT = re.compile(r'\s*\.\s*collect\s*(::\s*<\s*Vec\s*<\s*_\s*>\s*>)?\s*\(\s*\)')
 
 
@@ -252,7 +255,14 @@ def desugar_closures(text):
                 p, body = _closure(text, code, *args[0])
                 if p is None:
                     raise NoRule('closure without parameter')
-                if mc:
+                mfd = _FOR_EACH_DROP.match(text, pc + 1)
+                if mfd and meth == 'map' and not mc:
+                    k += 1
+                    it = 'oq3_it%d' % k
+                    new = ('{ let mut %s = %s;\n loop {\n match %s.next() {\n Some(%s) => { %s; }\n None => { break; }\n }\n }\n }' % (it, recv, it, p, body))
+                    end = mfd.end()
+                    rule = 'D16 Iterator::map + for_each(drop) -> loop (%s)' % it
+                elif mc:
                     if meth == 'and_then':
                         raise NoRule('and_then before collect')
                     k += 1
